@@ -4,11 +4,17 @@
   accepted, and what the BUNDLE group lists.
 
   Mirrors, branch by branch (file:function), the code AFTER the fix commits
-    f8dd603 (dataMediaSectionMid: a new application section takes the first free number >= section count)
-    2069d04 (a rejected m-section keeps its a=mid)
-    a5a045e (a remote m-section without direction attribute is sendrecv)
-    f2c1d7e (a remote m-section of an unsupported media type is rejected in place)
-    02610b0 (CreateOffer raises greaterMid from all four descriptions and all transceivers, then numbers):
+    62545c3 (dataMediaSectionMid: a new application section takes the first free number >= section count)
+    1e29db3 (a rejected m-section keeps its a=mid)
+    a3a3c09 (a remote m-section without direction attribute is sendrecv)
+    f46bced (a remote m-section of an unsupported media type is rejected in place)
+    ce37316 (CreateOffer raises greaterMid from all four descriptions and all transceivers, then numbers)
+  and the other agents' fix commits that touch this code:
+    55c599d (SetRemoteDescription checks mid presence, ICE credentials and fingerprint BEFORE setDescription)
+    266f843 (direction adjustment switch: a sendonly remote section turns sendrecv into recvonly, sendonly
+             into inactive)
+    1a4f4ff (generateMatchedSDP, when answering, narrows each matched transceiver's direction with
+             answerDirection before emitting it — a state change made by CreateAnswer):
     peerconnection.go: CreateOffer (updateGreaterMid scans, numbering loop, hasLocalDescriptionChanged retry loop),
       CreateAnswer, setDescription + signalingstate.go:checkNextSignalingState (offer/answer transitions),
       SetLocalDescription, SetRemoteDescription (m-section loop: findByMid, satisfyTypeAndDirection, new
@@ -364,6 +370,16 @@ def gatherPlanB (k : Kind) (d : Dir) : Nat → List Tr → Option Tr → Tr × L
     | none => (first.getD { kind := k, dir := .inactive, hasSender := false }, l)
     | some (t, l') => gatherPlanB k d fuel l' (some (first.getD t))
 
+/-- rtptransceiver.go:answerDirection — the local direction narrowed to a legal answer (RFC 3264 S6.1) -/
+def answerDirection (offered local_ : Dir) : Dir :=
+  let send := (local_ = .sendrecv || local_ = .sendonly) && (offered = .sendrecv || offered = .recvonly)
+  let recv := (local_ = .sendrecv || local_ = .recvonly) && (offered = .sendrecv || offered = .sendonly)
+  if send && recv then .sendrecv else if send then .sendonly else if recv then .recvonly else .inactive
+
+/-- `if !includeUnmatched { transceiver.setDirection(answerDirection(direction, transceiver.Direction())) }` -/
+def Tr.narrow (ans : Bool) (offered : Dir) (t : Tr) : Tr :=
+  if ans then { t with dir := answerDirection offered t.dir } else t
+
 /-- `mediaSections = append(mediaSections, …)` seen from the front of the loop: prepend to what the rest of
     the loop produces -/
 def pushSec (m : MSec) (isApp : Bool) :
@@ -373,27 +389,28 @@ def pushSec (m : MSec) (isApp : Bool) :
 
 /-- the m-section loop of generateMatchedSDP.  Returns the sections, the transceivers left over and
     `alreadyHaveApplicationMediaSection`. -/
-def matchLoop (sem : Sem) (detectedPlanB : Bool) : List Sec → List Tr → Except Err (List MSec × List Tr × Bool)
+def matchLoop (sem : Sem) (detectedPlanB : Bool) (ans : Bool) :
+    List Sec → List Tr → Except Err (List MSec × List Tr × Bool)
   | [], loc => .ok ([], loc, false)
   | s :: rest, loc =>
     match s.mid with
     | none => .error .noMid
     | some m =>
-      if s.media = mediaApplication then pushSec (.data m) true (matchLoop sem detectedPlanB rest loc)
+      if s.media = mediaApplication then pushSec (.data m) true (matchLoop sem detectedPlanB ans rest loc)
       else
         match kindOf s.media with
-        | none => pushSec (.unsupported m s.media) false (matchLoop sem detectedPlanB rest loc)
+        | none => pushSec (.unsupported m s.media) false (matchLoop sem detectedPlanB ans rest loc)
         | some k =>
           if sem = .planB || (sem = .fallback && detectedPlanB) then
             if !detectedPlanB then .error .semantics
             else
               let r := gatherPlanB k s.offeredDir loc.length loc none
-              pushSec (.tr m r.1) false (matchLoop sem detectedPlanB rest r.2)
+              pushSec (.tr m r.1) false (matchLoop sem detectedPlanB ans rest r.2)
           else
             if detectedPlanB then .error .semantics
             else match findByMid m loc with
               | none => .error .midNil
-              | some (t, loc') => pushSec (.tr m t) false (matchLoop sem detectedPlanB rest loc')
+              | some (t, loc') => pushSec (.tr m (t.narrow ans s.offeredDir)) false (matchLoop sem detectedPlanB ans rest loc')
 
 /-- bundleMatchFromRemote: nil ⇒ everything matches; otherwise membership in the remote group
     (an absent group attribute gives the tag list [""] that no mid equals) -/
@@ -475,7 +492,7 @@ def generateUnmatched (st : St) : Except Err Desc :=
 /-- peerconnection.go:generateMatchedSDP -/
 def generateMatched (st : St) (remote : Desc) (includeUnmatched : Bool) (role : Setup) : Except Err Desc :=
   let detectedPlanB := st.cfg.sem != .unified && possiblyPlanB remote
-  match matchLoop st.cfg.sem detectedPlanB remote.secs st.trs with
+  match matchLoop st.cfg.sem detectedPlanB (!includeUnmatched) remote.secs st.trs with
   | .error e => .error e
   | .ok (ms, left, haveApp) =>
     if includeUnmatched then
@@ -579,6 +596,38 @@ def createOffer (st : St) : St × Except Err Desc :=
 
 /-! ### CreateAnswer -/
 
+/-- update the first not yet matched transceiver satisfying `p` -/
+def updFirst (p : Tr → Bool) (f : Tr → Tr) : List (Tr × Bool) → Option (List (Tr × Bool))
+  | [] => none
+  | (t, used) :: rest =>
+    if !used && p t then some ((f t, true) :: rest)
+    else match updFirst p f rest with
+      | some r => some ((t, used) :: r)
+      | none => none
+
+/-- the direction narrowing that generateMatchedSDP performs on the PeerConnection's own transceivers while
+    it answers (Unified-Plan path): section by section, on the first not yet matched transceiver with the
+    section's mid; it stops where the loop returns an error -/
+def narrowLoop : List Sec → List (Tr × Bool) → List (Tr × Bool)
+  | [], w => w
+  | s :: rest, w =>
+    match s.mid with
+    | none => w
+    | some m =>
+      if s.media = mediaApplication then narrowLoop rest w
+      else match kindOf s.media with
+        | none => narrowLoop rest w
+        | some _ =>
+          match updFirst (fun t => t.mid = some m) (Tr.narrow true s.offeredDir) w with
+          | none => w
+          | some w' => narrowLoop rest w'
+
+/-- the state CreateAnswer leaves behind whether or not it succeeds (once it got as far as generateMatchedSDP) -/
+def answerState (st : St) (r : Desc) : St :=
+  let detectedPlanB := st.cfg.sem != .unified && possiblyPlanB r
+  if st.cfg.sem = .planB || detectedPlanB then st
+  else { st with trs := (narrowLoop r.secs (st.trs.map fun t => (t, false))).map (·.1) }
+
 /-- peerconnection.go:CreateAnswer (the remote descriptions of the generators all carry a=setup:actpass
     and no a=ice-lite, so the answering role is the default `active`) -/
 def createAnswer (st : St) : St × Except Err Desc :=
@@ -587,8 +636,8 @@ def createAnswer (st : St) : St × Except Err Desc :=
   | some r =>
     if st.sig != .haveRemoteOffer then (st, .error .state)
     else match generateMatched st r false .active with
-      | .error e => (st, .error e)
-      | .ok d => (st.register d, .ok d)
+      | .error e => (answerState st r, .error e)
+      | .ok d => ((answerState st r).register d, .ok d)
 
 /-! ### setRTPTransceiverCurrentDirection -/
 
@@ -660,15 +709,6 @@ def setLocal (st : St) (serial : Nat) (d : Desc) : St × Except Err Unit :=
 
 /-! ### SetRemoteDescription -/
 
-/-- update the first not yet matched transceiver satisfying `p` -/
-def updFirst (p : Tr → Bool) (f : Tr → Tr) : List (Tr × Bool) → Option (List (Tr × Bool))
-  | [] => none
-  | (t, used) :: rest =>
-    if !used && p t then some ((f t, true) :: rest)
-    else match updFirst p f rest with
-      | some r => some ((t, used) :: r)
-      | none => none
-
 /-- the direction adjustment switch for an existing transceiver -/
 def adjustDir (remote : Dir) (local_ : Dir) : Dir :=
   match remote, local_ with
@@ -677,6 +717,8 @@ def adjustDir (remote : Dir) (local_ : Dir) : Dir :=
   | .sendrecv, .sendonly => .sendrecv
   | .sendrecv, .inactive => .recvonly
   | .sendonly, .inactive => .recvonly
+  | .sendonly, .sendrecv => .recvonly
+  | .sendonly, .sendonly => .inactive
   | _, l => l
 
 /-- what happens to a transceiver found by mid -/
@@ -768,14 +810,18 @@ def remoteTrs (st : St) (d : Desc) : List Tr × Bool :=
   else (st.trs, true)
 
 def setRemote (st : St) (d : Desc) : St × Except Err Unit :=
-  if !d.secs.all (fun s => parsableMedia s.media) then (st, .error .parse) else
+  if !d.secs.all (fun s => parsableMedia s.media) then (st, .error .parse)
+  -- checked on the description alone, before setDescription changes anything (55c599d)
+  else if d.typ != .answer && !(st.cfg.sem != .unified && possiblyPlanB d) && d.secs.any (·.mid.isNone) then
+    (st, .error .noMid)
+  else if !iceOK d then (st, .error .ice)
+  else if st.curRemote.isNone && !fingerprintOK d then (st, .error .fingerprint)
+  else
   match setDescRemote st d with
   | .error e => (st, .error e)
   | .ok st1 =>
     let st3 : St := { engineUpdate st1 d with trs := (remoteTrs (engineUpdate st1 d) d).1 }
     if !(remoteTrs (engineUpdate st1 d) d).2 then (st3, .error .noMid)
-    else if !iceOK d then (st3, .error .ice)
-    else if st.curRemote.isNone && !fingerprintOK d then (st3, .error .fingerprint)
     else if d.typ = .answer then ({ st3 with trs := setCurrentDirections d true st3.trs }, .ok ())
     else (st3, .ok ())
 
